@@ -1,6 +1,6 @@
 #!/bin/sh
 # runs every thorough tier once, printing rc and wall time (used through `vp run`)
-for c in C20 C19 C16 C18 C01 C05 C13 C15 C14 C12 C06 C07 C08 C03 C02 C17 C04 C09 C10 C11; do
+for c in ${SWEEP:-C06 C07 C08 C20 C19 C16 C18 C01 C05 C13 C15 C14 C12 C03 C02 C17 C04 C09 C10 C11}; do
   s=$(date +%s)
   ./check $c --tier thorough > thorough_$c.out 2>&1; rc=$?
   echo "$c rc=$rc wall=$(( $(date +%s) - s ))s violations=$(grep -c '^VIOLATION' thorough_$c.out) $(grep -m1 -E 'ERROR machinery' thorough_$c.out | cut -c1-200)"
